@@ -4,6 +4,7 @@ from __future__ import annotations
 import re
 from typing import Any
 
+from .. import c34_tags as TG
 from ..runner import Divergence, Driver, Env, Outcome, Violation, diff_streams
 
 THEOREMS = [
@@ -19,6 +20,21 @@ THEOREMS = [
     "C34_greater_never_shrinks",
     "C34_detect_strings",
     "C34_prerelease_detected",
+    # extension round (b-xC34)
+    "C34_order_strict_total",
+    "C34_classify_respects_equality",
+    "C34_classify_characterisation",
+    "C34_chain_classification",
+    "C34_chain_guard_needed",
+    "C34_conversions_idempotent",
+    "C34_semver_to_pep_preserves_version",
+    "C34_roundtrip_semver_trailing_newline",
+    "C34_whitespace_irrelevant",
+    "C34_spellings_injective",
+    "C34_tag_source_shape",
+    "C34_tag_pipeline",
+    "C34_history_pipeline",
+    "C34_publish_pipeline",
 ]
 EXPLANATION = (
     "Lean model M15 over List Char: packaging's PEP 440 pattern restricted to `v? release pre?` (all spellings), "
@@ -32,7 +48,19 @@ EXPLANATION = (
     "functions regenerated from /repo (C34_source_shape), packaging's pattern/ranks and re's \\s, \\d tables "
     "regenerated from the runtime; op-by-op correspondence of the real functions against the model on structured, "
     "respelled, near-miss and garbage strings. Search: round-trip and classification monitors on the real functions "
-    "with an independent comparator."
+    "with an independent comparator. Extension: the order is a strict total order up to trailing zeros and the "
+    "classification respects that equivalence; every answer characterised by an iff; along every ascending chain of "
+    "versions the end-to-end classification is fixed by the most significant position any step touched (major iff some "
+    "step is major; maximum severity when every step touches major/minor/patch; witness that the guard is needed); "
+    "semver_to_pep440 / pep440_to_semver / normalisation idempotent on every string; semver_to_pep440 never changes the "
+    "version of any string packaging accepts (label error or same version); printers injective. Tag side "
+    "(model M15b): strip_refs_prefix (str.replace), infer_tag_metadata, remove_tag_prefix, extract_semver, "
+    "compute_suffix_and_version, previous_tag and the compute-tag-metadata command composed from them: for every "
+    "package name and every strictly descending release history the command classifies each tag against its "
+    "neighbour (never none; oldest -> major). Publish side: package.json version -> pyproject -> current_version, "
+    "is_rc_version, docker_image_tags. Tie: path summaries of those functions and the command's data flow regenerated "
+    "(C34_tag_source_shape); new correspondence ops strip/tagmeta/rmprefix/extract/suffix/prevtag/tagchange (the real "
+    "click command body with git's tag listing replaced)/docker; monitors on histories, chains and the publish path."
 )
 LEVEL_TEXT = "proof (all versions, unbounded release length) + correspondence + implementation-side monitors"
 ASSUMPTIONS = [
@@ -44,6 +72,11 @@ ASSUMPTIONS = [
     "code points are Unicode scalar values (lone surrogates cannot be represented as Lean Char and are not generated)",
     "previous_version=None/'' -> 'major' and an unparsable current version in that case are modelled (correspondence) "
     "but not part of the property",
+    "the tag list handed to previous_tag is what `git tag -l --sort=-version:refname` prints; the theorems about histories "
+    "assume it is strictly descending in the PEP 440 order (git's own version sort is outside /repo and not modelled); the "
+    "correspondence also feeds unsorted lists, duplicates and foreign tags",
+    "the compute-tag-metadata command is run through its click callback with git_utils.list_tags and gha.write_outputs "
+    "replaced; argument parsing by click and the file output are not exercised",
 ]
 TRUSTED_EXTRA = [
     "harness/gen/version.py (rule summaries of the four functions; packaging/re introspection of the running interpreter)",
@@ -69,7 +102,8 @@ def load_impl() -> dict[str, Any]:
     from dev_cli import changesets, versioning  # /repo/src on sys.path via harness.boot
 
     return {"s2p": changesets.semver_to_pep440, "p2s": changesets.pep440_to_semver, "isrc": changesets.is_rc_version,
-            "detect": versioning.detect_change_type, "Version": Version, "Invalid": InvalidVersion}
+            "detect": versioning.detect_change_type, "Version": Version, "Invalid": InvalidVersion,
+            "T": TG.load_impl_tags()}
 
 
 def cps(s: str) -> str:
@@ -88,6 +122,10 @@ def in_domain(I: dict, s: str) -> bool:
 def impl_answer(I: dict, op: list) -> str:
     """The real code's answer to one op, in the driver's output format."""
     kind = op[0]
+    if "T" in I:
+        r_ext = TG.impl_answer_tags(I["T"], lambda x: in_domain(I, x), op)
+        if r_ext is not None:
+            return r_ext
     try:
         if kind == "p2s":
             s = op[1]
@@ -145,6 +183,9 @@ def impl_answer(I: dict, op: list) -> str:
 
 def op_line(op: list) -> str:
     kind = op[0]
+    ext = TG.op_line_tags(op)
+    if ext is not None:
+        return ext
     if kind in ("p2s", "s2p", "norm", "parse", "isrc"):
         return f"{kind}|{cps(op[1])}"
     if kind == "detect":
@@ -341,6 +382,32 @@ def monitor_pep(I: dict, case: dict) -> Violation | None:
     return None
 
 
+def monitor_s2p_preserves(I: dict, case: dict) -> tuple[Violation | None, str]:
+    """semver_to_pep440 on ANY accepted spelling: label error, or a string denoting the same version."""
+    s = case["s"]
+    try:
+        before = I["Version"](s)
+    except Exception:
+        return None, "not-a-version"
+    try:
+        t = I["s2p"](s)
+    except ValueError as e:
+        if "Unsupported pre-release label" in str(e):
+            return None, "label-error"
+        return Violation("C34/s2p_raises", f"semver_to_pep440({s!r}) raised ValueError: {e}", case), "raises"
+    except Exception as e:
+        return Violation("C34/s2p_raises", f"semver_to_pep440({s!r}) raised {type(e).__name__}: {e}", case), "raises"
+    try:
+        after = I["Version"](t)
+    except Exception as e:
+        return Violation(f"C34/s2p_result_not_a_version[{case.get('style', '?')}]",
+                         f"semver_to_pep440({s!r}) = {t!r}, which packaging rejects ({type(e).__name__})", case), "rejected"
+    if (after.release, after.pre) != (before.release, before.pre) or str(after) != str(before):
+        return Violation(f"C34/s2p_changes_version[{case.get('style', '?')}]",
+                         f"semver_to_pep440({s!r}) = {t!r}: denotes {after}, the input denotes {before}", case), "changed"
+    return None, "converted" if t != s else "unchanged"
+
+
 def monitor_semver(I: dict, case: dict) -> Violation | None:
     v, s = case["ver"], case["s"]
     want = canon_semver(v)
@@ -387,6 +454,10 @@ def monitor_pair(I: dict, case: dict) -> Violation | None:
 
 
 # --------------------------------------------------------------------------
+
+
+def monitor_chain_case(I: dict, case: dict) -> Violation | None:
+    return TG.monitor_chain(I["detect"], case, cmp_spec)
 
 
 def make_pep_case(rng, v: dict | None = None) -> dict:
@@ -471,9 +542,13 @@ def case_ops(case: dict) -> list[list]:
         return [["detect", c, p], ["le", c, p], ["cmp", c, p]]
     if k == "raw":
         return [case["op"]]
+    if k in ("tag", "hist", "chain", "publish"):
+        return TG.case_ops_tags(case, canon_semver, canon_pep)
     return []
 
 
+MALFORMED_EXT = ["strip", "strip|x", "tagmeta|1,,2", "rmprefix|49", "extract|49|x", "suffix|49", "prevtag|49", "prevtag|49|x;50",
+                 "tagchange|49", "tagchange|49|1,,2", "docker|49|2", "docker|49", "docker|x|1"]
 MALFORMED = ["", "p2s", "p2s|x", "p2s|1,,2", "s2p|49|50", "detect|49", "detect|49|x", "bogus|49", "str|-1", "str|x",
              "cls|5|1", "cls|0|9999999", "le|49", "norm", "parse|1 2"]
 
@@ -490,7 +565,7 @@ def run(env: Env) -> Outcome:
     cases: list[dict] = []
     if env.replay is not None:
         rc = env.replay["payload"].get("case")
-        if isinstance(rc, dict) and rc.get("kind") in ("pep", "semver", "pair", "raw"):
+        if isinstance(rc, dict) and rc.get("kind") in ("pep", "semver", "pair", "raw", "tag", "hist", "chain", "publish"):
             cases.append(rc)
     cases += corpus()
     n = env.budget(2500, 600000)
@@ -513,6 +588,19 @@ def run(env: Env) -> Outcome:
             else:
                 op = [kind, g]
             cases.append({"kind": "raw", "op": op})
+    # extension: tag side, histories, chains, publish side (own budget; the stream above is unchanged)
+    cases += TG.tag_corpus(V)
+    for _ in range(env.budget(1100, 80000)):
+        m = rng.random()
+        if m < 0.35:
+            cases.append(TG.make_tag_case(rng, gen_ver, canon_semver, canon_pep, gen_garbage))
+        elif m < 0.60:
+            cases.append(TG.make_hist_case(rng, canon_semver, canon_pep))
+        elif m < 0.85:
+            cases.append(TG.make_chain_case(rng, spell_pep))
+        else:
+            cases.append(TG.make_publish_case(rng, gen_ver, spell_semver))
+    heavy_left = env.budget(60, 3000)
 
     ops: list[list] = []
     owner: list[int] = []
@@ -525,12 +613,18 @@ def run(env: Env) -> Outcome:
             out.count("release-length:" + str(min(len(case["ver"]["rel"]), 6)) + ("+" if len(case["ver"]["rel"]) > 6 else ""))
             out.count("pre:" + (case["ver"]["pre"][0] if case["ver"]["pre"] else "none"))
             v = monitor_pep(I, case)
+            v2, how = monitor_s2p_preserves(I, case)
+            out.count("s2p-on-pep-spelling:" + how)
+            v = v or v2
             out.nontrivial(("pep", case["s"]))
             out.sample({"pep440": case["s"], "semver": I["p2s"](case["s"]), "normalized": canon_pep(case["ver"])})
         elif k == "semver":
             out.count("semver-spelling:" + case.get("style", "?"))
             out.count("release-length:" + str(min(len(case["ver"]["rel"]), 6)) + ("+" if len(case["ver"]["rel"]) > 6 else ""))
             v = monitor_semver(I, case)
+            v2, how = monitor_s2p_preserves(I, case)
+            out.count("s2p-on-semver-spelling:" + how)
+            v = v or v2
             out.nontrivial(("semver", case["s"]))
         elif k == "pair":
             rel = cmp_spec(case["c"]["ver"], case["p"]["ver"])
@@ -542,6 +636,30 @@ def run(env: Env) -> Outcome:
                     out.sample({"new": case["c"]["s"], "previous": case["p"]["s"], "change": I["detect"](case["c"]["s"], case["p"]["s"])})
                 except Exception:
                     pass
+        elif k == "tag":
+            out.count("tag:refs-prefix:" + ("yes" if case["tag"].startswith(TG.REFS) else "no"))
+            out.count("tag:listed:" + ("yes" if (case["tag"][len(TG.REFS):] if case["tag"].startswith(TG.REFS) else case["tag"]) in case["tags"] else "no"))
+            out.count("tag:list-length:" + str(min(len(case["tags"]), 4)) + ("+" if len(case["tags"]) > 4 else ""))
+            out.nontrivial(("tag", case["tag"], case["prefix"], tuple(case["tags"])))
+        elif k == "hist":
+            out.count("hist:length:" + str(min(len(case["vers"]), 5)) + ("+" if len(case["vers"]) > 5 else ""))
+            out.count("hist:position:" + ("oldest" if case["idx"] == len(case["vers"]) - 1 else "has-older"))
+            out.count("hist:form:" + case["form"] + (",refs" if case["refs"] else ""))
+            v = TG.monitor_hist(I["T"], case, cmp_spec, canon_semver, canon_pep)
+            out.nontrivial(("hist", case["pkg"], case["form"], case["refs"], case["idx"], repr(case["vers"])))
+        elif k == "chain":
+            out.count("chain:steps:" + str(min(len(case["vers"]) - 1, 5)) + ("+" if len(case["vers"]) - 1 > 5 else ""))
+            for h in case.get("hows", []):
+                out.count("chain:step:" + h)
+            v = monitor_chain_case(I, case)
+            out.nontrivial(("chain", tuple(x["s"] for x in case["vers"])))
+        elif k == "publish":
+            out.count("publish:" + ("pre" if case["ver"]["pre"] else "final") + ",len" + str(min(len(case["ver"]["rel"]), 4)))
+            heavy = heavy_left > 0
+            heavy_left -= 1 if heavy else 0
+            out.count("publish:pyproject-on-disk:" + ("yes" if heavy else "no"))
+            v = TG.monitor_publish(I["T"], case, canon_pep, canon_semver, heavy)
+            out.nontrivial(("publish", case["s"]))
         out.evaluations += 1
         if v is not None:
             out.violations.append(v)
@@ -558,9 +676,10 @@ def run(env: Env) -> Outcome:
     for lo, hi in chunks:
         ops.append(["cls", lo, hi])
         owner.append(-1)
-    for line in MALFORMED:
+    for line in MALFORMED + MALFORMED_EXT:
         ops.append(["malformed", line])
         owner.append(-1)
+    TG.cleanup(I["T"])
 
     lines = [op_line(op) for op in ops]
     impl_out = []
@@ -570,6 +689,12 @@ def run(env: Env) -> Outcome:
         out.count("op:" + op[0])
         if op[0] in ("p2s", "norm", "parse", "detect", "le", "cmp"):
             out.count(f"answer:{op[0]}:" + ("outside" if a == "outside" else "in-domain"))
+        elif op[0] in ("tagmeta", "rmprefix", "extract", "suffix"):
+            out.count(f"answer:{op[0]}:" + ("value-error" if a == "value-error" else "ok"))
+        elif op[0] == "prevtag":
+            out.count("answer:prevtag:" + ("none" if a == "none" else "some"))
+        elif op[0] == "tagchange":
+            out.count("answer:tagchange:" + (a if a in ("outside", "error") else a.split("|")[2] if a.startswith("ok ") else "other"))
         elif op[0] == "s2p":
             out.count("answer:s2p:" + ("label-error" if a == "label-error" else "converted" if a != "ok " + cps(op[1]) else "unchanged"))
     try:
